@@ -18,6 +18,7 @@ use script::{Focus, Gen, Step};
 fn focus_for(prop: &str) -> Vec<(Focus, &'static str, u64)> {
     // (focus, part name, share of the budget in percent)
     match prop {
+        "C01" => vec![(Focus::Value, "raw-value-lanes", 100)],
         "C02" => vec![(Focus::Map, "raw-map-spellings", 75), (Focus::Sync, "raw-sync-placements", 25)],
         "C03" => vec![(Focus::Sync, "raw-sync-placements", 60), (Focus::Map, "raw-map-spellings", 20), (Focus::Links, "raw-link-accounting", 20)],
         "C04" => vec![(Focus::Protocol, "raw-fault-conversations", 60), (Focus::Sync, "raw-sync-placements", 15), (Focus::Links, "raw-link-accounting", 25)],
@@ -281,6 +282,7 @@ fn main() {
         let n = (total * share / 100).max(1);
         let rule = match focus {
             Focus::Inactivity => "seeded conversation (1-2 remotes, 2-4 harness-implemented lanes, paced readers, nothing stalled, no failing lane) against the real agent runtime with inactive_timeout 6/12/25 ms of virtual time and idle gaps of 1 ms .. 2 timeouts between the steps, ending with five timeouts of idleness; rules: the runtime never ends by itself less than one timeout after a lane event or a delivered command (virtual instants, exact under the paused clock; work in the very instant of the end is skipped as ambiguous), and it has ended by itself by the end of the final idle period; non-trivial when >= 4 frames were received; distinct by the schedule signature",
+            Focus::Value => "seeded conversation (1-2 remotes, value and command lanes implemented by the harness with unique bodies and, one time in eight, the empty body; byte channels of 2..4096 bytes, paced/stalled/dropped readers, chunked/held sync responses, poll jitter) against the real agent runtime; per (remote, lane): every received body is one the lane produced, never more often than it was sent to that remote, in order, and the last one at quiescence is the lane's value; non-trivial when >= 4 frames were received; distinct by the schedule signature",
             Focus::Links => "seeded conversation (1-4 remotes, 2-4 harness-implemented lanes speaking the lane byte protocol, byte channels of 2..4096 bytes, paced/stalled/dropped readers, chunked/held sync responses, lane failures, poll jitter; prune_remote_delay 2-20 ms of virtual time in half of the cases, with connections removed for inactivity re-attaching under the same routing id and up to two late requests on the old channel) against the real agent runtime with NodeReporting; reporter snapshots at every checkpoint; non-trivial when >= 4 frames were received; distinct by the schedule signature (global order of (session, frame kind, lane) receipts)",
             Focus::Supply => "seeded conversation (1-3 remotes, supply and command lanes implemented by the harness, bursts of up to 2000 unique items and runs of items with an empty body, byte channels of 2..4096 bytes, paced/stalled/dropped readers, poll jitter) against the real agent runtime; non-trivial when >= 4 frames were received; distinct by the schedule signature",
             _ => "seeded conversation (1-4 remotes, 2-4 harness-implemented lanes speaking the lane byte protocol, byte channels of 2..4096 bytes, paced/stalled/dropped readers, chunked/held sync responses, lane failures, poll jitter) against the real agent runtime; non-trivial when >= 4 frames were received; distinct by the schedule signature (global order of (session, frame kind, lane) receipts)",
